@@ -21,7 +21,7 @@ def run (u : UC) (texts : List Text) : Sexp :=
   list [list outs.reverse, list (l.statements.map stmtSexp), outcomeSexp (l.build u), list (sym "reals" :: reals)]
 
 def handle : List Sexp → Option Sexp
-  | sym "c12" :: list (sym "uc" :: rows) :: texts => some (run (ucOf rows) (asTexts texts))
+  | sym "c12" :: list (sym "uc" :: rows) :: texts => (ucOf? rows).map (fun u => run u (asTexts texts))
   | _ => none
 
 end Pyx.Driver.C12
